@@ -6,7 +6,7 @@ CHECK = {'pkgs': ['dkg', 'dkg/pedersen'],
  'run': {'dkg': 'TestVerifC11', 'dkg/pedersen': 'TestVerifC11P'},
  'level': 'exploration',
  'engine': 'enumx',
- 'technique': 'small-scope exhaustive enumeration against the real code, two parts. Part one: ceremony configurations and round-barrier '
+ 'technique': 'small-scope exhaustive enumeration against the real code, two FROST parts and a pedersen part (every threshold of every cluster size on the real pedersen.RunDKG). Part one: ceremony configurations and round-barrier '
               'arrival/release orders; the real runFrostParallel is run by n in-process nodes over a harness fTransport (ordered barrier, messages '
               'through the real frostp2p wire conversion). Part two: the PRODUCTION transport is in the loop - every node gets the real '
               'bcast.New component and the real newFrostP2P (real newBcastCallback/newP2PCallback with their dedup maps and validation, real '
@@ -19,7 +19,7 @@ CHECK = {'pkgs': ['dkg', 'dkg/pedersen'],
               'with the vsync lock shim: every lock acquisition and every unlock of the callbacks is a scheduling point). In both parts the '
               'outputs of all nodes are judged with the real tbls primitives; candidates are re-run before they are reported (3x fresh '
               'randomness; concurrent cases 5x the same interleaving)',
- 'claim': 'PART ONE: every (n,t,v) with n in 3..5 (thorough 3..8), t in 2..n, v in 1..2 (thorough 1..4) validators; for each the arrival=release '
+ 'claim': 'PEDERSEN PART (dkg/pedersen, TestVerifC11P): the second key-generation protocol, pedersen.RunDKG, on n real nodes (libp2p hosts on loopback, real dkg/bcast, real Board) for EVERY (n, t) with n in 3..6 (thorough 3..9), t in 2..n and the unset threshold 0 (= default ceil(2n/3)), v in 1..2 validators (quick: v=1 for n=6): every successful ceremony judged completely - same group key and same n public shares on all nodes, each secret share matches its public share, EVERY t-subset of public shares recovers the group key and EVERY t-subset of partial signatures aggregates to a valid group signature; ceremonies that fail are skipped and counted. PART ONE: every (n,t,v) with n in 3..5 (thorough 3..8), t in 2..n, v in 1..2 (thorough 1..4) validators; for each the arrival=release '
           'orders of the two round barriers: n<=4 all n! orders of round 1 (round 2 identity), all n! orders of round 2 (round 1 identity) and '
           'reversed/reversed; n>=5 all rotations of the identity and of the reversed order per round (other round identity) and '
           'reversed/reversed; map iteration pinned to rotation 0, 1 or left stock-random, cyclically over the cases. Thorough only: the '
